@@ -24,13 +24,31 @@ def main(argv):
         inputs = rb.domain_inputs(args.tier, args.seed, "XRBS")
     d = rb.workdir(PROP)
     try:
-        res = rb.record_domain(inputs, d, jobs=args.jobs, shards=args.jobs, stages=True, heavy=70)
+        res = rb.record_domain(inputs, d, jobs=args.jobs, shards=args.jobs, stages=True, heavy=70,
+                               reload=bool(args.replay and inputs and inputs[0].get("reload")))
         stat = evaluate(res, "C06", args.jobs)
         out = explore(res, args.jobs)
         if not args.replay:
             from . import designfam
 
             designfam.attach_walk(rep, PROP, args.tier, d, args.jobs)
+            # histories in which the graph is written out and read back between the stages (the generator of the reloaded graph must not
+            # hand out a control variable that is already in use): same tables clause, same product exploration
+            import os
+
+            rin = rb.domain_inputs(args.tier, args.seed + 2, "XR", scale=0.25 if args.tier == "quick" else 0.5)
+            res2 = rb.record_domain(rin, os.path.join(d, "reload"), jobs=args.jobs, shards=args.jobs, stages=True, reload=True, heavy=70)
+            stat2 = evaluate(res2, "C06", args.jobs)
+            out2 = explore(res2, args.jobs)
+            for v in stat2["viol"]:
+                for clause in v["bad"]:
+                    rep.violation(clause, {"id": dict(v["id"], reload=True), "stage": STAGE_ORDER[v["sid"] - 1]}, detail={"failed": v["bad"], "history": "to_dict/from_dict between stages"})
+            for v in out2["viol"]:
+                if v["bad"].startswith("BAD:C06-"):
+                    rep.violation(v["bad"][8:], {"id": dict(v["id"], reload=True), "stage": STAGE_ORDER[v["sid"] - 1], "mode": v["mode"]},
+                                  detail={"decision_path_blocks": v["path"], "env": v["env"], "history": "to_dict/from_dict between stages"})
+            rep.coverage["reload_histories"] = {"behaviours": sum(r["ncases"] for r in res2), "product_states": out2["states"]}
+            rep.coverage["states"] = rep.coverage.get("states", 0) + out2["states"] + stat2["states"]
         from . import tracefam
 
         tr = tracefam.run_traces(tracefam.trace_inputs(args.tier, args.seed) if not args.replay else inputs, "C06", d, args.jobs)
